@@ -161,10 +161,10 @@ class Inliner:
                         break
         for key in list(self.functions):
             f = self.functions[key]
-            if f.get("externC") and f.get("body") is not None:
+            if f.get("body") is not None and str(f.get("file")).endswith(".cpp"):
                 for _round in range(4):
                     before = self.count
-                    self._helpers(f)
+                    self._helpers(f, only_fp=not f.get("externC"))
                     if self.count == before:
                         break
         return self.count
@@ -216,9 +216,10 @@ class Inliner:
             g.setdefault("inlined_into", []).append(f["name"])
             return
 
-    def _helpers(self, f):
+    def _helpers(self, f, only_fp=False):
         """`return helper(args);`, `helper(args);` and single-return helpers called from an extern "C" definition are
-        replaced by the helper's body (tail form: the helper's return statements become the caller's)"""
+        replaced by the helper's body (tail form: the helper's return statements become the caller's).  In other callers
+        (only_fp) this is done only for helpers that take a function pointer: the calls through it become direct calls"""
         par = {}
         for n in walk(f["body"]):
             for c in kids(n):
@@ -229,6 +230,8 @@ class Inliner:
                 continue
             params, args = g["params"], n["c"][1:]
             args = [a for a in args]
+            if only_fp and not any("(*)" in str(p.get("t") or "") for p in params):
+                continue
             if len(args) != len(params) or any(a.get("k") == "CXXDefaultArgExpr" for a in args):
                 continue
             if {p["id"] for p in params} & _assigned_ids(g["body"]):
@@ -244,7 +247,13 @@ class Inliner:
             if p is not None and p.get("k") == "ReturnStmt":
                 new = {"k": "CompoundStmt", "l": n.get("l"), "c": _subst(stmts, env), "inl": g["name"]}
                 _fix_indirect(new, self.functions)
-                _replace(p, new)
+                pp = par.get(id(p))
+                if pp is not None and pp.get("k") == "CompoundStmt" and any(x is p for x in pp.get("c", [])):
+                    # splice into the enclosing block (rules that read the top-level statement list see the helper's statements)
+                    i = [j for j, x in enumerate(pp["c"]) if x is p][0]
+                    pp["c"][i:i + 1] = new["c"]
+                else:
+                    _replace(p, new)
                 self.count += 1
                 self.sites.append((f["name"], new.get("l"), "tail " + g["name"]))
                 g.setdefault("inlined_into", []).append(f["name"])
